@@ -432,10 +432,10 @@ class Session:
                         find("load_values", f"selection {last['sel']} rows={key[0]} cols={key[1]}: {msg}")
                     # what the user obtained EARLIER is theirs: a later request must not change it behind their back
                     for (t0, m0), held in self.arrays.items():
-                        for arr, snap, what in held:
+                        for hi, (arr, snap, what) in enumerate(held):
                             if arr is not vals and snap is not None and np.asarray(arr).tobytes() != snap:
                                 find("load_values", f"an array obtained earlier ({what}) changed when {last['sel']} rows={key[0]} was loaded afterwards")
-                                held[held.index((arr, snap, what))] = (arr, None, what)
+                                held[hi] = (arr, None, what)
                     self.arrays.setdefault((t, m), []).append((vals, v2.tobytes() if msg is None else None, f"slot {t} image {m} {last['sel']} rows={key[0]}"))
         elif op == "mutate":
             import numpy as np
